@@ -673,6 +673,10 @@ def _native_tables(tier="quick", seed=0):
                 tbl = gf.table
                 if sum(col.width for col in tbl.columns) != 1000 * C + 1 or sum(row.height for row in tbl.rows) != 700 * R + 2:
                     bad = bad or ("sums", "%dx%d: widths/heights do not sum to the request" % (R, C))
+                if evals % 3 == 0:
+                    # a table as another producer may write it: without the optional a:tblPr (rows are then not the third child onwards)
+                    for pr_ in tbl._tbl.findall("{http://schemas.openxmlformats.org/drawingml/2006/main}tblPr"):
+                        tbl._tbl.remove(pr_)
                 variants = ["t%d%d", "\v", "a%d\vb%d", "", "x%d\ny%d", "t%d%d"]  # also cells whose only content is a line break, empty cells, two paragraphs
                 for r, cc in cells:
                     tv = variants[(r * 3 + cc + evals) % len(variants)]
